@@ -101,11 +101,15 @@ func (w *world) newStore() {
 }
 
 func Run(k *report.Check) {
-	k.Rule = "explicit-state search over the real snapshots.Store: events = CreateCheckpoint, CreateSavepoint, operator acknowledgement (sender in assembly or a foreign node; id in {pending-1, pending, pending+1}; duplicates), source-runner acknowledgement (same), restart of the store over the same storage; assemblies (1 operator,1 runner), (2,1), (2,2). Publishing runs to quiescence after every event. The store's in-memory state, CurrentCheckpoint, the files in storage (decoded) and the retained-checkpoint notifications are compared with a reference model after every event. States (store dump + files + model) are deduplicated. non-trivial = distinct states with a pending checkpoint that has at least one acknowledgement, or reached through a duplicate / mismatched / foreign acknowledgement"
+	k.Rule = "concurrent part: the acknowledgements of one checkpoint, optionally a duplicate acknowledgement and a racing CreateCheckpoint, each on a thread of its own against the real Store with a slow splitter, every schedule within the delay bound: exactly one publication and one splitter checkpoint per completed checkpoint, no acknowledgement of the assembly rejected, the newest snapshot present and complete, a checkpoint started by the racing call completable, ids growing across a restart. Sequential part: explicit-state search over the real snapshots.Store: events = CreateCheckpoint, CreateSavepoint, operator acknowledgement (sender in assembly or a foreign node; id in {pending-1, pending, pending+1}; duplicates), source-runner acknowledgement (same), restart of the store over the same storage; assemblies (1 operator,1 runner), (2,1), (2,2). Publishing runs to quiescence after every event. The store's in-memory state, CurrentCheckpoint, the files in storage (decoded) and the retained-checkpoint notifications are compared with a reference model after every event. States (store dump + files + model) are deduplicated. non-trivial = distinct states with a pending checkpoint that has at least one acknowledgement, or reached through a duplicate / mismatched / foreign acknowledgement"
 	k.Assumptions = []string{"in-memory StorageLocation with lexicographic listing", "publication goroutines are awaited after every event (their interleavings are C13's subject)"}
 	k.Budget(100, 900)
 	p := params{depth: k.Pick(14, 24)}
 	k.Explore(fmt.Sprintf("store/d=%d", p.depth), mc.Config{}, p, body)
+	bound := k.Pick(3, 4)
+	for n := 1; n <= 2; n++ {
+		k.ExploreSched(fmt.Sprintf("concurrent-acks/operators=%d,delays<=%d", n, bound), mc.Config{Bound: bound}, cparams{nOps: n}, concurrentBody)
+	}
 }
 
 func seg(id uint64) string { return snapshots.VerifPathSegment(id) }
